@@ -477,3 +477,194 @@ pub proof fn lemma_run_consumed(cfg: SCfg, a: SAbs, d: Seq<u8>, room: Option<int
         }
     }
 }
+
+// ---- whole records of any kind (C02 "regardless of interleaved management, unknown-type or foreign-id records",
+// C04 "replies in arrival order"): data records of the active stream, skipped records (stale / foreign / unknown-type,
+// some of them answered) and GetValues queries, in any order
+pub open spec fn srec_ok(cfg: SCfg, r: DRec) -> bool {
+    &&& r.hdr.len() == 8 && r.body.len() <= 65535 && r.pad.len() <= 255
+    &&& head_step(cfg, r.hdr) matches HeadSpec::Rec { st, out }
+    &&& st.p == r.body.len() && st.q == r.pad.len()
+}
+pub open spec fn srec_delivery(cfg: SCfg, r: DRec) -> Seq<u8> { delivery_of(rec_state(cfg, r).mode, r.body) }
+// the reply owed for the record: the one its header prescribes (UnknownType, EndRequest/CantMpxConn) and, for a
+// GetValues query with a non-empty body, the GetValuesResult once the body is complete
+pub open spec fn srec_reply(cfg: SCfg, r: DRec) -> Seq<u8> {
+    let hout = head_step(cfg, r.hdr)->Rec_out;
+    match rec_state(cfg, r).mode {
+        SMode::Values { bits } => if r.body.len() > 0 { hout + values_reply(vars_union(bits, decode_pairs(r.body)), cfg.mc) } else { hout },
+        _ => hout,
+    }
+}
+pub open spec fn srec_mode_after(cfg: SCfg, r: DRec) -> SMode {
+    match rec_state(cfg, r).mode {
+        SMode::Values { bits } => if r.body.len() > 0 { SMode::Values { bits: vars_union(bits, decode_pairs(r.body)) } } else { SMode::Values { bits } },
+        m => m,
+    }
+}
+
+/// The run over exactly one well-formed record of any kind, from a record boundary.
+pub proof fn lemma_s_one_record(cfg: SCfg, m0: SMode, r: DRec, end: bool)
+    requires
+        srec_ok(cfg, r),
+    ensures
+        s_run(cfg, boundary_of(m0), rec_wire(r), None, end) == (RunS { st: boundary_of(srec_mode_after(cfg, r)), consumed: rec_wire(r).len() as int,
+            delivered: srec_delivery(cfg, r), out: srec_reply(cfg, r), end, err: None }), // @C02,C04,C18 streamsplit.one_record
+{
+    reveal(pay_step);
+    let e = Seq::<u8>::empty();
+    let a = boundary_of(m0);
+    let d = rec_wire(r);
+    let bp = r.body + r.pad;
+    assert(d =~= r.hdr + bp);
+    assert(d.skip(0) =~= d);
+    lemma_head_ext(cfg, r.hdr, bp);
+    let st = rec_state(cfg, r);
+    let hout = head_step(cfg, r.hdr)->Rec_out;
+    let it = s_iter(cfg, a, d, None);
+    assert(!it.stop && it.consumed == 8 && it.st == st && it.delivered == e && it.out =~= hout);
+    assert(d.skip(8) =~= bp);
+    assert(room_after(None::<int>, 0) == None::<int>);
+    let r2 = s_run(cfg, st, bp, None, end);
+    if bp.len() == 0 {
+        assert(r2 == (RunS { st, consumed: 0, delivered: e, out: e, end, err: None }));
+        assert(e + e =~= e);
+        assert(hout + e =~= hout);
+    } else {
+        // the second round: body, padding, then no header bytes are left
+        let it2 = s_iter(cfg, st, bp, None);
+        let p = r.body.len() as int;
+        let q = r.pad.len() as int;
+        assert(bp.take(p) =~= r.body);
+        assert(bp.skip(p) =~= r.pad);
+        assert(r.pad.skip(q) =~= e);
+        lemma_head_len(cfg, e);
+        let ps = pay_step(st, bp, None, cfg.mc);
+        if p > 0 {
+            assert(min_int(p, bp.len() as int) == p);
+        }
+        assert(it2.stop && it2.consumed == p + q && it2.err is None && !it2.end);
+        assert(it2.st == boundary_of(srec_mode_after(cfg, r)));
+        assert(it2.delivered =~= srec_delivery(cfg, r));
+        assert(hout + it2.out =~= srec_reply(cfg, r));
+        assert(r2 == (RunS { st: it2.st, consumed: it2.consumed, delivered: it2.delivered, out: it2.out, end, err: None }));
+        assert(e + it2.delivered =~= it2.delivered);
+    }
+    let full = s_run(cfg, a, d, None, end);
+    assert(full == (RunS { st: r2.st, consumed: 8 + r2.consumed, delivered: it.delivered + r2.delivered, out: it.out + r2.out, end: r2.end, err: r2.err }));
+    assert(full.st == boundary_of(srec_mode_after(cfg, r)));
+    assert(full.delivered =~= srec_delivery(cfg, r));
+    assert(full.out =~= srec_reply(cfg, r));
+    assert(d.len() == 8 + bp.len());
+}
+
+pub open spec fn deliveries_all(cfg: SCfg, recs: Seq<DRec>) -> Seq<u8>
+    decreases recs.len(),
+{
+    if recs.len() == 0 { Seq::<u8>::empty() } else { srec_delivery(cfg, recs[0]) + deliveries_all(cfg, recs.skip(1)) }
+}
+pub open spec fn sreplies_all(cfg: SCfg, recs: Seq<DRec>) -> Seq<u8>
+    decreases recs.len(),
+{
+    if recs.len() == 0 { Seq::<u8>::empty() } else { srec_reply(cfg, recs[0]) + sreplies_all(cfg, recs.skip(1)) }
+}
+pub open spec fn mode_after_all(cfg: SCfg, m0: SMode, recs: Seq<DRec>) -> SMode {
+    if recs.len() == 0 { m0 } else { srec_mode_after(cfg, recs.last()) }
+}
+
+/// C02 / C04 on the wire, any mix of records: the run over any sequence of well-formed records followed by further input
+/// delivers exactly the bodies of the active stream's data records, in order, each byte once; owes exactly the replies
+/// of the answered records, in arrival order; consumes every record entirely; and continues at `tail`.
+pub proof fn lemma_s_records(cfg: SCfg, m0: SMode, recs: Seq<DRec>, tail: Seq<u8>, end: bool)
+    requires
+        forall|i: int| 0 <= i < recs.len() ==> srec_ok(cfg, #[trigger] recs[i]),
+    ensures
+        s_run(cfg, boundary_of(m0), wire(recs) + tail, None, end)
+            == prepend(wire(recs).len() as int, deliveries_all(cfg, recs), sreplies_all(cfg, recs), s_run(cfg, boundary_of(mode_after_all(cfg, m0, recs)), tail, None, end)), // @C02,C04,C18 streamsplit.any_records_deliver_exactly_the_stream_and_owe_exactly_the_replies
+    decreases recs.len(),
+{
+    let e = Seq::<u8>::empty();
+    if recs.len() == 0 {
+        let x = s_run(cfg, boundary_of(m0), tail, None, end);
+        assert(wire(recs) + tail =~= tail);
+        assert(e + x.delivered =~= x.delivered);
+        assert(e + x.out =~= x.out);
+    } else {
+        let r = recs[0];
+        let rest = recs.skip(1);
+        let x = rec_wire(r);
+        let y = wire(rest) + tail;
+        assert(srec_ok(cfg, r));
+        assert forall|i: int| 0 <= i < rest.len() implies srec_ok(cfg, #[trigger] rest[i]) by { assert(rest[i] == recs[i + 1]); }
+        lemma_s_one_record(cfg, m0, r, end);
+        lemma_run_split(cfg, boundary_of(m0), x, y, None, end);
+        assert(wire(recs) + tail =~= x + y);
+        assert(x.skip(x.len() as int) + y =~= y);
+        assert(room_after(None::<int>, srec_delivery(cfg, r).len() as int) == None::<int>);
+        let m1 = srec_mode_after(cfg, r);
+        lemma_s_records(cfg, m1, rest, tail, end);
+        assert(mode_after_all(cfg, m1, rest) == mode_after_all(cfg, m0, recs)) by {
+            if rest.len() > 0 { assert(rest.last() == recs.last()); }
+        }
+        let t = s_run(cfg, boundary_of(mode_after_all(cfg, m1, rest)), tail, None, end);
+        let dv = srec_delivery(cfg, r);
+        let ro = srec_reply(cfg, r);
+        assert(dv + (deliveries_all(cfg, rest) + t.delivered) =~= (dv + deliveries_all(cfg, rest)) + t.delivered);
+        assert(ro + (sreplies_all(cfg, rest) + t.out) =~= (ro + sreplies_all(cfg, rest)) + t.out);
+    }
+}
+
+/// ... followed by the stream's terminating record (or the first record of a later stream): end-of-stream is reported
+/// exactly there, everything before it is consumed, the terminating header is not.
+pub proof fn lemma_s_stream_until_end(cfg: SCfg, m0: SMode, recs: Seq<DRec>, tail: Seq<u8>, end: bool)
+    requires
+        forall|i: int| 0 <= i < recs.len() ==> srec_ok(cfg, #[trigger] recs[i]),
+        head_step(cfg, tail) is Hold,
+    ensures
+        ({
+            let r = s_run(cfg, boundary_of(m0), wire(recs) + tail, None, end);
+            &&& r.delivered == deliveries_all(cfg, recs) // @C02 streamsplit.any_records.exactly_the_stream_bytes
+            &&& r.end && r.err is None // @C02,C18 streamsplit.any_records.end_reported_at_terminator
+            &&& r.consumed == wire(recs).len() // @C02,C05 streamsplit.any_records.terminator_not_consumed
+            &&& r.out == sreplies_all(cfg, recs) // @C04 streamsplit.any_records.exactly_the_owed_replies_in_order
+        }),
+{
+    lemma_head_len(cfg, tail);
+    lemma_s_records(cfg, m0, recs, tail, end);
+    lemma_hold(cfg, boundary_of(mode_after_all(cfg, m0, recs)), tail, end);
+    let e = Seq::<u8>::empty();
+    assert(deliveries_all(cfg, recs) + e =~= deliveries_all(cfg, recs));
+    assert(sreplies_all(cfg, recs) + e =~= sreplies_all(cfg, recs));
+}
+
+/// Non-vacuity witness: for a Responder request 1 reading Stdin, a Stdin data record, an unknown-type record (answered),
+/// a padded empty GetValues query and a stale Data record all satisfy srec_ok; the empty Stdin record is held back.
+pub proof fn lemma_s_witness(mc: usize)
+    ensures
+        ({
+            let cfg = SCfg { role: fcgi::Role::Responder, req_id: 1, active: Some(fcgi::RecordType::Stdin), mc };
+            let data = DRec { hdr: seq![1u8, 5, 0, 1, 0, 2, 0, 0], body: seq![7u8, 8], pad: Seq::<u8>::empty() };
+            let unk = DRec { hdr: seq![1u8, 77, 0, 9, 0, 1, 0, 0], body: seq![5u8], pad: Seq::<u8>::empty() };
+            let gv = DRec { hdr: seq![1u8, 9, 0, 0, 0, 0, 3, 0], body: Seq::<u8>::empty(), pad: seq![0u8, 0, 0] };
+            let stale = DRec { hdr: seq![1u8, 8, 0, 1, 0, 1, 0, 0], body: seq![9u8], pad: Seq::<u8>::empty() };
+            &&& srec_ok(cfg, data) && srec_delivery(cfg, data) == data.body
+            &&& srec_ok(cfg, unk) && srec_reply(cfg, unk) == unknown_reply(9, 77) && srec_delivery(cfg, unk) == Seq::<u8>::empty()
+            &&& srec_ok(cfg, gv)
+            &&& srec_ok(cfg, stale) && srec_delivery(cfg, stale) == Seq::<u8>::empty()
+            &&& head_step(cfg, seq![1u8, 5, 0, 1, 0, 0, 0, 0]) is Hold
+        }), // @C02,C04 streamsplit.hypotheses_are_satisfiable
+{
+    reveal(head_step);
+    let h1 = seq![1u8, 5, 0, 1, 0, 2, 0, 0];
+    assert(h1.take(8) =~= h1);
+    let h2 = seq![1u8, 77, 0, 9, 0, 1, 0, 0];
+    assert(h2.take(8) =~= h2);
+    let h3 = seq![1u8, 9, 0, 0, 0, 0, 3, 0];
+    assert(h3.take(8) =~= h3);
+    let h4 = seq![1u8, 8, 0, 1, 0, 1, 0, 0];
+    assert(h4.take(8) =~= h4);
+    let h5 = seq![1u8, 5, 0, 1, 0, 0, 0, 0];
+    assert(h5.take(8) =~= h5);
+    let s = role_streams(fcgi::Role::Responder);
+    assert(s[0] == fcgi::RecordType::Stdin);
+}
